@@ -22,9 +22,11 @@ Definition order_of (x : pyshp) : option (list Z) :=
   | Err => None
   end.
 
-(* parse_shape(shape) *)
+(* parse_shape(shape); a target WITHOUT modes — (), [] — never reaches a result: tensor.reshape ends in the constructor's "Empty
+   tensor cannot contain any elements", sptensor.reshape in np.unravel_index's refusal of a 0-d target (stored entries) or in the
+   constructor's refusal of the float shape that np.concatenate((keep_shape, ())) makes (nothing stored) *)
 Definition shape_of (x : pyshp) : option (list nat) :=
-  match parse_shape x with Ok l => nats_of l | Err => None end.
+  match parse_shape x with Ok [] => None | Ok l => nats_of l | Err => None end.
 
 (* an operation that takes an order, given the request as written by the caller *)
 Definition with_order_z {X} (f : list nat -> option X) (pz : list Z) : option X :=
